@@ -71,3 +71,8 @@ CORPUS += [
     M("message-id-default-one", L, "    def encode(cls, device_id: int, command: bytes) -> bytes:", "    def encode(cls, device_id: int, command: bytes, message_id: int = 1) -> bytes:",
       also=[(L, "        header += bytes(4)  # Message ID", "        header += message_id.to_bytes(4, \"little\")  # Message ID")]),
 ]
+# round 12: the codec classes store nothing on themselves
+CORPUS += [
+    M("encrypt-into-class-level-scratch", "msmart/lan.py", "        # Encrypt the padded data\n        return cipher.encrypt(Padding.pad(data, 16))",
+      "        cls._scratch = bytearray(cipher.encrypt(Padding.pad(data, 16)))\n        return bytes(cls._scratch)"),
+]
